@@ -62,8 +62,8 @@ def main():
     nums = [0, 1, 2, 500]
     units = ["", "s", "ms", "us"]
     combos = [(a, ua, b, ub) for a in nums for ua in units for b in nums for ub in units]
-    if quick:
-        combos = rng.sample(combos, 120)
+    if not quick:
+        combos = combos * 4              # (each with other operators / separators)
     for a, ua, b, ub in combos:
         iv = [lang.T("[")] + [lang.T("num", a, str(a))] + ([lang.T("unit", ua, ua)] if ua else []) + [lang.T(rng.choice([":", ","]))] + \
              [lang.T("num", b, str(b))] + ([lang.T("unit", ub, ub)] if ub else []) + [lang.T("]")]
